@@ -202,6 +202,40 @@ theorem backend_ostream_transparent {τ : Type} {L : Lib τ} {b : Backend} (hL :
       st.inbuf = [] ∧ (chunks.flatten ≠ [] → Dec st.sink = some chunks.flatten) ∧ (chunks.flatten = [] → st.sink = []) :=
   ostream_transparent_single (wrapEncContract hL) hb chunks
 
+/--
+**probe_spec** (`tar_open_stream`).  An input in which `ustar` stands at offset 257 (of the first record, or of the second
+when the first is all zero) is read as it is, whatever its first bytes are; an input is handed to a decompressor only if
+it starts with that codec's magic number from the table of compress.c.
+-/
+theorem probe_spec (data : Bytes) :
+    (tarProbe data = true → openStreamCodec data = none) ∧
+    (∀ id, openStreamCodec data = some id →
+      tarProbe data = false ∧ ∃ m, (id, m) ∈ magicTable ∧ IsPre m data) := by
+  constructor
+  · intro h; simp [openStreamCodec, h]
+  · intro id h
+    unfold openStreamCodec at h
+    cases hp : tarProbe data with
+    | true => simp [hp] at h
+    | false =>
+      refine ⟨rfl, ?_⟩
+      simp only [hp, Bool.false_eq_true, if_false] at h
+      unfold compressorIdFromMagic at h
+      cases hf : magicTable.find? (fun e => decide (e.2.length ≤ data.length) && (data.take e.2.length == e.2)) with
+      | none => simp [hf] at h
+      | some e =>
+        simp only [hf] at h
+        split at h
+        · have hid : e.1 = id := by
+            have := Option.some.inj h
+            omega
+          have hmem := List.mem_of_find?_eq_some hf
+          have hpred := List.find?_some hf
+          simp only [Bool.and_eq_true, decide_eq_true_eq, beq_iff_eq] at hpred
+          refine ⟨e.2, by rw [← hid]; exact hmem, ⟨data.drop e.2.length, ?_⟩⟩
+          conv => lhs; rw [← List.take_append_drop e.2.length data, hpred.2]
+        · cases h
+
 /-- Non-vacuity of the library-level convention: the toy library meets it under each backend's return-code convention. -/
 theorem toy_library_meets_convention (P : Toy.Params) (b : Backend) :
     Nonempty (LibEncContract (Toy.encLib P b) b Toy.decode) ∧ Nonempty (LibDecContract (Toy.decLib P b) b Toy.decode) :=
